@@ -244,6 +244,20 @@ func (rd *redisDict) clone() *redisDict {
 	return dict
 }
 
+// makes an independent copy: unlike clone(), the items are duplicated as well,
+// so storing a new value for a key in one dictionary does not show in the other
+func (rd *redisDict) deepClone() *redisDict {
+	dict := rd.clone()
+	for i, item := range dict.buckets {
+		if item != nil {
+			itemCopy := *item
+			dict.buckets[i] = &itemCopy
+		}
+	}
+	dict.dirty = true
+	return dict
+}
+
 func (rd *redisDict) toStringTable() map[string]string {
 	result := make(map[string]string, rd.count)
 	for i := rd.createIterator(); i.next(); {
